@@ -281,12 +281,13 @@ package identity
 //@   modifies nothing
 //@   ensures result == i.versions[len(i.versions) - 1]
 //@ func (*version).Clone
-//@   props C09 C04
+//@   props C09 C04 C08
 //@   requires v != nil && (forall k int :: { v.keys[k] } 0 <= k && k < len(v.keys) ==> v.keys[k] != nil && v.keys[k].public != nil)
 //@   modifies nothing
 //@   opt trusted_frame
 //@   ensures [fresh-copy] result != nil && fresh(result) && result.commitHash == "" && result.id == entity.UnsetId
 //@   ensures [shares-no-map] (result.metadata == nil || fresh(result.metadata)) && result.times != nil && fresh(result.times)
+//@   ensures [keys-copied] len(result.keys) == len(v.keys)
 //@   loop 1
 //@     invariant clone.times != nil && fresh(clone.times) && clone.commitHash == "" && clone.id == entity.UnsetId && clone.metadata == v.metadata && clone.keys == v.keys
 //@   loop 2
